@@ -13,6 +13,7 @@ for op, ns in (("lpush", (0,)), ("rpush", (0, 2)), ("lpop", (0, 1, 2)), ("rpop",
 for _w in ("sadd",):
   E3("c03_set_" + _w, "SISMEMBER, SCARD, then " + _w.upper() + " x (x x for SADD) on a 2-member set with symbolic distinct members: uniqueness, counts, exact post-state; SADD that adds nothing does not notify watchers", ["StorageEngine::sadd", "srem", "sismember", "scard"], "2 + 1 one-byte symbolic members; unwind 6")
 E3("c03_srem_last", "SREM of the last member removes the key", ["StorageEngine::srem"], "1 member")
+E3("c03_sadd_absent", "SADD x y on a MISSING key (x, y symbolic, possibly equal): the set is created, reply and SCARD count each distinct member once, watchers notified", ["StorageEngine::sadd", "scard"], "2 one-byte symbolic members; unwind 6")
 for _w in ("hset",):
   E3("c03_hash_" + _w, "HGET, HEXISTS, HLEN, then " + _w.upper() + " f on a 1-field hash: overwrite vs add, counts, key removed when emptied", ["StorageEngine::hset", "hget", "hdel", "hlen", "hexists"], "1 + 1 symbolic fields; unwind 6")
 for nm in ("lpush", "sadd", "hset", "lpop", "lrange", "hdel"):
